@@ -85,6 +85,17 @@ def strategy_(draw, tier):
                 if "flow" in d:
                     d["flow"] = int(d["flow"])
             case["meta"]["int_data_float_type"] = True
+    # large values (read counts of 10^9 are ordinary data): exact integer arithmetic must not be replaced by tolerances
+    if (kw.get("weight_type") == "int" and case["cls"] in ("kFlowDecomp", "MinFlowDecomp") and not case["meta"].get("fractional_data_int_type")
+            and route == "default" and kw.get("flow_attr_origin") != "node" and not kw.get("elements_to_ignore") and draw(st.integers(0, 3)) == 0):
+        big_ = 10 ** 9
+        for _n, d in case["graph"]["nodes"] + [[None, d] for _u, _v, d in case["graph"]["edges"]]:
+            if "flow" in d:
+                d["flow"] = int(d["flow"]) * big_
+        if "solution_weights_superset" in kw:
+            kw["solution_weights_superset"] = [int(w) * big_ for w in kw["solution_weights_superset"]]
+        case["meta"]["planted"] = [[r, int(w) * big_] for r, w in case["meta"]["planted"]]
+        case["meta"]["large_values"] = True
     # perturbed data: one weighted element is zeroed (or shifted) after planting, so the instance is usually no longer
     # decomposable. Nothing is claimed about solvability; but whatever is reported solved must still explain every value.
     if draw(st.integers(0, 5)) == 0:
@@ -132,6 +143,8 @@ def run_case(case, tier="quick"):
         labels.add("fractional_data_int_type")
     if (case.get("meta") or {}).get("perturbed"):
         labels.add("perturbed_data")
+    if (case.get("meta") or {}).get("large_values"):
+        labels.add("large_values")
     try:
         r = run_model(case, tier)
     except Exception as e:
@@ -160,6 +173,10 @@ def run_case(case, tier="quick"):
     if getattr(sub, "solution_weights_superset", None) is not None or (getattr(sub, "optimization_options", None) or {}).get("given_weights") is not None:
         taken = "given_weights"
     labels.add(f"taken:{taken}")
+    if (case.get("meta") or {}).get("large_values") and taken != "greedy":
+        # values of 10^9 are exact in the pure-Python parts (validation, greedy peeling) but beyond what a MILP solver with
+        # absolute tolerances resolves; the solver is part of the trusted base, so nothing is concluded on that route
+        return inconclusive("large values on the MILP route", labels)
     starts, ends = kw.get("additional_starts", []), kw.get("additional_ends", [])
     pairs = [(rt, w) for rt, w in zip(routes, weights) if rt]
     for rt, w in pairs:
